@@ -603,6 +603,7 @@ func runC12(c *vf.Ctx) {
 	g.ecPool()
 	g.cases = append(g.cases, c12Vectors()...)
 	g.hostile()
+	g.shapes()
 	g.mutations()
 	g.valid()
 	cases := g.cases
